@@ -35,7 +35,7 @@ const rule = "state in which both fixture pools are live after at least one oper
 func PartsC01() []mc.Part {
 	return []mc.Part{
 		KernelPart(),
-		mc.ExplorePartC("small-reserves", New(small("C01")), 3, 4, false, rule, &mc.ConfOpts{Stores: []string{"coinswap"}, SkipDenoms: map[string]bool{"stake": true}, MaxPaths: 150}),
+		mc.ExplorePartC("small-reserves", mc.WithRestart(New(small("C01")), "coinswap"), 3, 4, false, rule, &mc.ConfOpts{Stores: []string{"coinswap"}, SkipDenoms: map[string]bool{"stake": true}, MaxPaths: 150}),
 		mc.ExplorePart("big-reserves", New(bigv("C01")), 3, 4, false, rule),
 	}
 }
@@ -43,7 +43,7 @@ func PartsC01() []mc.Part {
 // PartsC02: settlement searches.
 func PartsC02() []mc.Part {
 	return []mc.Part{
-		mc.ExplorePartC("small-reserves", New(small("C02")), 4, 5, false, rule, &mc.ConfOpts{Stores: []string{"coinswap"}, SkipDenoms: map[string]bool{"stake": true}, MaxPaths: 150}),
+		mc.ExplorePartC("small-reserves", mc.WithRestart(New(small("C02")), "coinswap"), 4, 5, false, rule, &mc.ConfOpts{Stores: []string{"coinswap"}, SkipDenoms: map[string]bool{"stake": true}, MaxPaths: 150}),
 		mc.ExplorePart("small-reserves-cheap-token", New(smallCheap("C02")), 3, 4, false, rule),
 		mc.ExplorePart("big-reserves", New(bigv("C02")), 2, 3, false, rule),
 	}
